@@ -127,7 +127,7 @@ def parseReq (cfg prog : String) : Option ReqCfg :=
     let zz := if z = "z" then some true else if z = "n" then some false else none
     match kk, zz with
     | some (x, o), some z =>
-      some { cfg := { xrefStreams := x, objStreams := o, compress := z }, ver := ver,
+      some { cfg := Cfg.effective { xrefStreams := x, objStreams := o, compress := z }, ver := ver,
              pages := (prog.splitOn "|").length }
     | _, _ => none
   | _ => none
@@ -179,13 +179,13 @@ def modelFacts (rc : ReqCfg) (fs : List (String × String)) : Option String := d
     let size := es.length
     let dl := size * (w.1 + w.2.1 + w.2.2)
     let rl := if rc.cfg.compress then (natFld fs "rl").getD 0 else dl
-    let dict := emitDict (xrefStreamDict size 1 3 w rl)
+    let dict := emitDict (xrefStreamDictCfg rc.cfg.compress size 1 3 w rl)
     let total := (objHeader sid).length + dict.length + 1 + 7 + rl + 10 + 1 + 7
     let objStrs := objStrs ++ [showObj sid xo (total - 1) (some rl)]
     let sx := xo + total + 1
     pure (s!"ok ver={rc.ver} hl={hl} objs={",".intercalate objStrs} xk=s xo={xo} sid={sid} " ++
-      s!"W={w.1}/{w.2.1}/{w.2.2} idx=0/{size} flt=1 rl={rl} dl={dl} ents={showRuns (rle es)} contig=1 " ++
-      s!"size={size} root=1.0 info=3.0 tkeys=Filter,Index,Info,Length,Root,Size,Type,W " ++ common2 sx)
+      s!"W={w.1}/{w.2.1}/{w.2.2} idx=0/{size} flt={if rc.cfg.compress then 1 else 0} rl={rl} dl={dl} ents={showRuns (rle es)} contig=1 " ++
+      s!"size={size} root=1.0 info=3.0 tkeys={if rc.cfg.compress then "Filter," else ""}Index,Info,Length,Root,Size,Type,W " ++ common2 sx)
   else
     let es := classicEntries x
     let size := maxId x + 1
